@@ -143,6 +143,7 @@ type Exec struct {
 	entryState       *State
 	oldCache         map[string]Value
 	constRefs        []*Term
+	splitPathRun     bool
 }
 
 type modEntry struct {
@@ -784,6 +785,38 @@ func (x *Exec) callFunction(fn *ssa.Function, args []Value, bindings []Value, st
 	}
 
 	order := fr.loops.order
+	// path splitting: execute only the selected acyclic path of the target function
+	var pathNext map[*ssa.BasicBlock]*ssa.BasicBlock
+	isTargetCall := fn == x.targetFn && x.target != nil && len(x.stack) >= 2 && x.stack[len(x.stack)-2] == x.target.harness
+	if isTargetCall && x.target.SplitPaths {
+		if len(fr.loops.list) > 0 {
+			unsup("split paths on a function with loops")
+		}
+		paths := enumeratePaths(fn, 128)
+		if paths == nil {
+			unsup("split paths: too many paths")
+		}
+		x.numReturns = len(paths)
+		x.splitPathRun = true
+		sel := x.selectReturn
+		if sel < 0 || sel >= len(paths) {
+			sel = 0
+		}
+		pathNext = map[*ssa.BasicBlock]*ssa.BasicBlock{}
+		p := paths[sel]
+		for i := 0; i+1 < len(p); i++ {
+			pathNext[p[i]] = p[i+1]
+		}
+		pathNext[p[len(p)-1]] = nil
+		fr.narrowed = true
+	}
+	onPath := func(from, to *ssa.BasicBlock) bool {
+		if pathNext == nil {
+			return true
+		}
+		n, ok := pathNext[from]
+		return ok && n == to
+	}
 	out := map[*ssa.BasicBlock]*State{}                     // state at end of block
 	edgeCond := map[[2]int]*Term{}                          // (from,to) -> condition
 	edgeRel := map[[2]int]*Term{}                           // (from,to) -> condition relative to the entry
@@ -877,6 +910,11 @@ func (x *Exec) callFunction(fn *ssa.Function, args []Value, bindings []Value, st
 					edgeCond[[2]int{b.Index, b.Succs[0].Index}] = st0.guard
 					edgeRel[[2]int{b.Index, b.Succs[0].Index}] = rel[b]
 				}
+				for _, s := range b.Succs {
+					if !onPath(b, s) {
+						edgeCond[[2]int{b.Index, s.Index}] = ts.False()
+					}
+				}
 			case *ssa.Jump:
 				edgeCond[[2]int{b.Index, b.Succs[0].Index}] = st0.guard
 				edgeRel[[2]int{b.Index, b.Succs[0].Index}] = rel[b]
@@ -916,7 +954,7 @@ func (x *Exec) callFunction(fn *ssa.Function, args []Value, bindings []Value, st
 	if len(rets) == 0 {
 		return nil, nil
 	}
-	if fn == x.targetFn && x.target != nil && x.target.SplitRet && len(x.stack) >= 2 && x.stack[len(x.stack)-2] == x.target.harness {
+	if fn == x.targetFn && x.target != nil && x.target.SplitRet && !x.target.SplitPaths && len(x.stack) >= 2 && x.stack[len(x.stack)-2] == x.target.harness {
 		x.numReturns = len(rets)
 		x.oblAtReturn = len(x.obls)
 		if x.selectReturn >= 0 && x.selectReturn < len(rets) {
@@ -1103,36 +1141,41 @@ func analyzeLoops(fn *ssa.Function) *loopInfo {
 }
 
 // skolemize replaces universally quantified variables in positive positions
-// of a goal by fresh constants (validity-preserving).
-func (x *Exec) skolemize(t *Term) *Term {
+// of a goal (and existentially quantified ones in negative positions) by
+// fresh constants (validity-preserving).
+func (x *Exec) skolemize(t *Term) *Term { return x.skolem(t, true) }
+
+func (x *Exec) skolem(t *Term, pos bool) *Term {
 	ts := x.w.ts
+	if !hasQuant(t, map[int]bool{}) {
+		return t
+	}
 	switch {
-	case t.kind == kQuant && t.op == "forall" && !hasFreeBound(t, nil):
+	case t.kind == kQuant && !hasFreeBound(t, nil) && ((t.op == "forall") == pos):
 		m := map[*Term]*Term{}
 		for _, b := range t.bvars {
 			m[b] = x.w.Fresh("sk_"+strings.SplitN(b.op, "!", 2)[0], b.sort)
 		}
-		return x.skolemize(ts.Subst(t.args[0], m))
-	case t.kind == kApp && t.op == "and":
+		return x.skolem(ts.Subst(t.args[0], m), pos)
+	case t.kind == kApp && t.op == "not":
+		return ts.Not(x.skolem(t.args[0], !pos))
+	case t.kind == kApp && (t.op == "and" || t.op == "or"):
 		out := make([]*Term, len(t.args))
 		for i, a := range t.args {
-			out[i] = x.skolemize(a)
+			out[i] = x.skolem(a, pos)
 		}
-		return ts.And(out...)
-	case t.kind == kApp && t.op == "or":
-		out := make([]*Term, len(t.args))
-		for i, a := range t.args {
-			out[i] = x.skolemize(a)
+		if t.op == "and" {
+			return ts.And(out...)
 		}
 		return ts.Or(out...)
 	case t.kind == kApp && t.op == "=>":
-		return ts.Implies(t.args[0], x.skolemize(t.args[1]))
-	case t.kind == kApp && t.op == "=" && t.args[0].sort == SBool && hasQuant(t, map[int]bool{}):
+		return ts.Implies(x.skolem(t.args[0], !pos), x.skolem(t.args[1], pos))
+	case pos && t.kind == kApp && t.op == "=" && t.args[0].sort == SBool:
 		// iff: both directions, universals in the conclusions skolemised
 		a, b := t.args[0], t.args[1]
-		return ts.And(ts.Implies(a, x.skolemize(b)), ts.Implies(b, x.skolemize(a)))
-	case t.kind == kApp && t.op == "ite" && t.sort == SBool && hasQuant(t, map[int]bool{}):
-		return ts.And(ts.Implies(t.args[0], x.skolemize(t.args[1])), ts.Implies(ts.Not(t.args[0]), x.skolemize(t.args[2])))
+		return ts.And(ts.Implies(a, x.skolem(b, true)), ts.Implies(b, x.skolem(a, true)))
+	case pos && t.kind == kApp && t.op == "ite" && t.sort == SBool:
+		return ts.And(ts.Implies(t.args[0], x.skolem(t.args[1], true)), ts.Implies(ts.Not(t.args[0]), x.skolem(t.args[2], true)))
 	}
 	return t
 }
@@ -1203,4 +1246,34 @@ func (x *Exec) dropKnown(guard, cond *Term) *Term {
 	}
 	walk(cond)
 	return x.w.ts.And(conj...)
+}
+
+// enumeratePaths lists the acyclic entry-to-exit block paths of a loop-free function.
+func enumeratePaths(fn *ssa.Function, limit int) [][]*ssa.BasicBlock {
+	var out [][]*ssa.BasicBlock
+	var cur []*ssa.BasicBlock
+	var rec func(b *ssa.BasicBlock) bool
+	rec = func(b *ssa.BasicBlock) bool {
+		cur = append(cur, b)
+		defer func() { cur = cur[:len(cur)-1] }()
+		if len(b.Succs) == 0 {
+			out = append(out, append([]*ssa.BasicBlock{}, cur...))
+			return len(out) <= limit
+		}
+		seen := map[*ssa.BasicBlock]bool{}
+		for _, s := range b.Succs {
+			if seen[s] {
+				continue
+			}
+			seen[s] = true
+			if !rec(s) {
+				return false
+			}
+		}
+		return true
+	}
+	if len(fn.Blocks) == 0 || !rec(fn.Blocks[0]) {
+		return nil
+	}
+	return out
 }
